@@ -18,6 +18,8 @@ package lexer
 //@ func GetRangeLoc
 //@   sweep C01
 //@   requires beginLoc != nil && endLoc != nil
+//@   ensures[C19,C04,from-the-start-of-the-first-to-the-end-of-the-second] result.StartLine == beginLoc.StartLine && result.StartColumn == beginLoc.StartColumn && result.EndLine == endLoc.EndLine && result.EndColumn == endLoc.EndColumn
+//@   assigns nothing
 //@ end
 
 //@ func GetRangeLocExcludeEnd
